@@ -520,7 +520,7 @@ def shrink_case(fn, case, kind, budget_s=20.0):
 
 
 # --------------------------------------------------------------------------- reporting
-def finish(acc, tier, level, rule, t0, assumptions=(), extra_cov=None, exhaustive=False, trusted_base=(), checks=None):
+def finish(acc, tier, level, rule, t0, assumptions=(), extra_cov=None, exhaustive=False, trusted_base=(), checks=None, no_shrink=()):
     """Write replays + evidence, print protocol lines, return exit code."""
     prop = acc.prop
     os.makedirs(os.path.join(OUT, "evidence"), exist_ok=True)
@@ -531,7 +531,7 @@ def finish(acc, tier, level, rule, t0, assumptions=(), extra_cov=None, exhaustiv
         nviol += 1
         os.makedirs(os.path.join(OUT, "replays"), exist_ok=True)
         shrunk_steps = 0
-        if checks and check in checks and not kind.startswith("lib_exception") and os.environ.get("PV_NO_SHRINK") != "1":
+        if checks and check in checks and check not in no_shrink and not kind.startswith("lib_exception") and os.environ.get("PV_NO_SHRINK") != "1":
             try:
                 small, shrunk_steps = shrink_case(checks[check], case, kind, 15.0 if tier == "quick" else 120.0)
                 if shrunk_steps:
